@@ -139,7 +139,8 @@ Next ==
               ELSE IF ~gen \/ e.c.op # "viterbi" THEN TRUE
               ELSE LET mv == XMachineViterbi(m, e.c.a.obs) IN
                    /\ Assert(mv.e = mn, "(min,+) Viterbi machine # path minimum")
-                   /\ IF e.r.path # mv.path THEN PrintT(<<"DRIFT", run, idx + 1>>) ELSE TRUE
+                   /\ IF ~XVitConsistent(m, e.c.a.obs, e.r.path)
+                      THEN PrintT(<<"DRIFT", run, idx + 1>>) ELSE TRUE
     /\ idx' = idx + 1
     /\ UNCHANGED run
 Spec == Init /\ [][Next]_vars
